@@ -145,3 +145,24 @@ Theorem C08_finish_fixed_classical L cord pord st st1 st' :
   s_finished st' = true /\ s_fkeys st' = s_fkeys st1 /\ s_consts st' = s_consts st1.
 Proof. exact (finish_fixed_classical L cord pord st st1 st'). Qed.
 Print Assumptions C08_finish_fixed_classical.
+
+(* the well-formedness hypotheses are invariants of the API: every state reachable by a
+   history of set/add calls satisfies them (op_ok: set_opaque_value only on sentences the
+   logic treats as opaque; Identity predications are binary) *)
+From PT Require Import Sem.ExportProofs Sem.ReachProofs.
+Theorem C08_reachable_wf L os st :
+  forallb (op_ok L) os = true -> apply_ops L init_state os = Some st -> inv L st.
+Proof. exact (reachable_inv L os st). Qed.
+Print Assumptions C08_reachable_wf.
+
+(* for EVERY history and EVERY iteration order, the repaired finish makes identity an
+   equivalence that every extension respects and existence universal *)
+Theorem C08_classical_finish_repaired_history L cord pord os st st1 st' :
+  ml_classical L = true -> val_ok L VT = true -> forallb (op_ok L) os = true ->
+  apply_ops L init_state os = Some st -> complete_frames L st = Some st1 ->
+  (forall c, In c cord <-> In c (s_consts st)) -> pord_covers pord st1 ->
+  run_fixed L cord pord os = Some st' ->
+  (forall w, In w (s_fkeys st') -> frame_classical st' w) /\ classical_okb st' = true /\
+  state_wfb L st' = true /\ acc_wf (s_R st') /\ s_finished st' = true.
+Proof. exact (run_fixed_classical_wf L cord pord os st st1 st'). Qed.
+Print Assumptions C08_classical_finish_repaired_history.
